@@ -6364,6 +6364,7 @@ CK_RV SoftHSM::WrapKeySym
 			break;
 #endif
 		case CKM_AES_CBC:
+			blocksize = 16;
 			algo = SymAlgo::AES;
 			break;
 			
@@ -6374,6 +6375,7 @@ CK_RV SoftHSM::WrapKeySym
 			break;
 			
 		case CKM_DES3_CBC:
+			blocksize = 8;
 			algo = SymAlgo::DES3;
 			break;
 			
